@@ -365,10 +365,12 @@ def firstKeyI32 : Val → Option Int
 def blockStarts : List Nat → List Nat
   | cs => (cs.foldl (fun (acc : List Nat × Nat) c => (acc.1 ++ [acc.2], acc.2 + c)) ([], 0)).1
 
-/-- the loop of start_rowid over `(first_rowid, first_val)`; `none` first_val = decode panics -/
+/-- the loop of start_rowid over `(first_rowid, first_val)`; `none` first_val = decode panics.
+Since fix 68084af the walk stops at the first block whose first key is >= the begin key (it was
+`>`: rows equal to an Included begin key at the end of the previous block were skipped). -/
 def startWalk (begin : Int) : List (Nat × Option Int) → Nat → Out Nat
   | [], pre => .ok pre
-  | (rid, some fv) :: rest, pre => if fv > begin then .ok pre else startWalk begin rest rid
+  | (rid, some fv) :: rest, pre => if fv ≥ begin then .ok pre else startWalk begin rest rid
   | (_, none) :: _, _ => .panic "start_rowid:first-key-decode"
 
 /-- disk_rowset.rs start_rowid: no begin key → 0; Int32 begin key → walk over COLUMN 0's block
@@ -516,6 +518,8 @@ structure TableMeta where
   primary : List Nat
   /-- `StorageImpl::table_is_sorted_by_primary_key` (true for the disk engine) -/
   sortedByPk : Bool
+  /-- columns declared INT (`DataType::Int32`) -/
+  intCols : List Nat := []
   deriving Repr
 
 /-- order.rs analyze_order -/
@@ -532,6 +536,14 @@ def analyzeOrder (t : TableMeta) : Plan → List OrdKey
   | .filter _ p => analyzeOrder t p
   | .limit _ _ p => analyzeOrder t p
   | .empty _ => []
+
+/-- range.rs `is_primary_key_range` (condition of the `filter-scan` rules) since fixes a029577 and
+fe505a1: the condition is a key range on a PRIMARY KEY column that is the table's FIRST column, of
+type INT, with INT constants as bounds. (Before: `is_primary` only.) -/
+def rangeGuard (t : TableMeta) (e : Expr) : Bool :=
+  match analyzeRange e with
+  | some (k, r) => t.primary.contains k && k == 0 && t.intCols.contains k && bndI32 r.lo && bndI32 r.hi
+  | none => false
 
 /-- `is_orderby(keys, plan)`: the plan's order key list starts with `keys`. -/
 def isOrderBy (t : TableMeta) (ks : List OrdKey) (p : Plan) : Bool :=
@@ -550,7 +562,14 @@ def outCols : Plan → List Nat
 /-- What the executors compute.  Rows stay table-width (columns are referred to by identity);
 `outCols` is applied at the end. -/
 def execPlan (t : TableMeta) (lay : List RowSet) : Plan → Out (List Row)
-  | .scan cols f => tableScan t.primary lay cols (keyRangeOfFilter f)
+  | .scan cols f =>
+    -- executor/mod.rs Scan arm since fix a546337: a scan filter that is neither `true` nor a key
+    -- range is evaluated by a FilterExecutor on top of the scan (it used to be ignored)
+    let kr := keyRangeOfFilter f
+    let rows := tableScan t.primary lay cols kr
+    match f with
+    | .const (.bool true) => rows
+    | _ => if kr.isNone then rows.map fun rs => rs.filter (keepRow f) else rows
   | .filter c p => (execPlan t lay p).map fun rows => rows.filter (keepRow c)
   | .proj _ p => execPlan t lay p
   | .order ks p => (execPlan t lay p).map fun rows => sortL (keyCmp ks) rows
